@@ -107,6 +107,11 @@ class PrintStatementRule(MultiLanguageLintRule):  # thailint: ignore[srp]
         if "print-statements" in metadata:
             return load_linter_config(context, "print-statements", PrintStatementConfig)
 
+        # Documented section name of the renamed linter (improper-logging)
+        for key in ("improper_logging", "improper-logging"):
+            if key in metadata:
+                return load_linter_config(context, key, PrintStatementConfig)
+
         return None
 
     def _is_file_ignored(self, context: BaseLintContext, config: PrintStatementConfig) -> bool:
